@@ -311,6 +311,10 @@ class AnnotationDAGBuilder:
             if inspect.iscoroutinefunction(get_callable_run_method(node)):
                 continue
 
+            if NodeTag.non_async in node.tags:
+                # The node is executed in place (see run_node), it needs no pool
+                continue
+
             if NodeTag.process in node.tags:
                 is_process_pool_needed = True
             else:
